@@ -361,6 +361,41 @@ theorem C20_switch_local_command (tool : Tool) (guard fwd : Bool) (amb : Ambient
     simp only [h₁, h₂] at hc ⊢ <;> try exact hc
   exact switch_local_main tool fwd amb X _ _ hc p r b
 
+/-- **with and without the switch**, on a command line that already holds a switch: inserting `-w X` / `-i X` is either refused
+    (usage: `X` names no class) or leaves the exit status, the banner, the backend decision and every diagnostic outside class `X`
+    as they were -/
+theorem C20_switch_with_without (tool : Tool) (fwd : Bool) (amb : Ambient) (X : String) (o : Sw) (sw0 : Switch)
+    (pre post : List Switch) (p r b : List Diag) :
+    match runCmd tool LibErrors.setWarningNullGuard fwd amb (sw0 :: pre ++ post) p r b,
+          runCmd tool LibErrors.setWarningNullGuard fwd amb (sw0 :: pre ++ ⟨o, X⟩ :: post) p r b with
+    | .ran a, .ran c => a.status = c.status ∧ a.banner = c.banner ∧ a.backendRan = c.backendRan ∧ filt X a.printed = filt X c.printed
+    | _, .usage => True
+    | _, _ => False := by
+  have hc := switch_added_config LibErrors.setWarningNullGuard (by decide) X o sw0 pre post
+  simp only [runCmd]
+  cases h₁ : configure LibErrors.setWarningNullGuard (sw0 :: pre ++ post) <;>
+    cases h₂ : configure LibErrors.setWarningNullGuard (sw0 :: pre ++ ⟨o, X⟩ :: post) <;>
+    simp only [h₁, h₂] at hc ⊢ <;> try exact hc
+  exact switch_local_main tool fwd amb X _ _ hc p r b
+
+/-- whether two warnings of classes other than `downcast` are enabled after option processing: the class-less WRONG_ARG_COUNT and
+    CASE_SKIP_LABEL (class `invalid_case`) -/
+def warnProbe (c : Config) : Option (Bool × Bool) :=
+  match c with
+  | .ok ov => some (enabled ov LibErrors.WRONG_ARG_COUNT, enabled ov LibErrors.CASE_SKIP_LABEL)
+  | _ => none
+
+/-- `_witness` — **the FIRST switch of a command line is not local**: without any `-w`/`-i` every warning is switched off
+    (`if( no_warnings ) ERRORset_all_warnings( … )` in fedex.c's `main`), the first switch — whatever class it names — leaves that
+    call out, so every warning of every OTHER class appears.  Here: the class-less WRONG_ARG_COUNT and CASE_SKIP_LABEL (class
+    `invalid_case`) are off without switches and on under `-w downcast` as well as under `-i downcast`.  The with/without form of
+    the property holds only from the second switch on (`C20_switch_with_without`); finding `first-switch-enables-all-warnings` -/
+theorem C20_first_switch_enables_other_classes_witness :
+    warnProbe (configure LibErrors.setWarningNullGuard []) = some (false, false) ∧
+    warnProbe (configure LibErrors.setWarningNullGuard [⟨.w, "downcast"⟩]) = some (true, true) ∧
+    warnProbe (configure LibErrors.setWarningNullGuard [⟨.i, "downcast"⟩]) = some (true, true) := by
+  decide
+
 /-- `-w X` / `-i X` for a class that exists does not crash (regenerated guard); on the unguarded code every switch
     does: index 0 of the table is a zero-filled warning entry without a class name -/
 theorem C20_switch_does_not_crash (ov : Overrides) (name : String) (b : Bool) :
